@@ -48,6 +48,16 @@ def is_pure_arith(e) -> bool:
     return ok
 
 
+def _const_vs_uninterpreted(atom):
+    if not (z3.is_app(atom) and atom.decl().kind() == z3.Z3_OP_EQ and atom.num_args() == 2):
+        return False
+    a, b = atom.arg(0), atom.arg(1)
+    for x, y in ((a, b), (b, a)):
+        if z3.is_string_value(x) and z3.is_app(y) and y.num_args() > 0 and y.decl().kind() == z3.Z3_OP_UNINTERPRETED:
+            return True
+    return False
+
+
 class Infeasible(Exception):
     """The current path condition became unsatisfiable."""
 
@@ -346,6 +356,10 @@ class Interp:
         atom = cond.arg(0) if z3.is_not(cond) else cond
         if z3.is_const(atom) and atom.decl().kind() == z3.Z3_OP_UNINTERPRETED and atom.sexpr() not in self.constrained_bools:
             # a fresh propositional variable nothing else talks about: both sides are feasible, no solver call needed
+            can_t = can_f = True
+        elif _const_vs_uninterpreted(atom):
+            # "<literal> == F(...)" for an uninterpreted F (HEX(UUID5(..)) against a table key): taken as feasible both ways without
+            # asking the solver - an over-approximation of feasibility, which is always sound (an infeasible path proves vacuously)
             can_t = can_f = True
         else:
             can_t = self.feasible(cond)
@@ -883,7 +897,13 @@ class Interp:
         chk = spec.get("__body_check__")
         if chk is not None:
             # element-wise postcondition of ONE arbitrary iteration (what the iteration must have done with its element)
-            for label, goal in chk(self, env, getattr(self, "_loop_trace_mark", 0)) or []:
+            try:
+                goals = chk(self, env, getattr(self, "_loop_trace_mark", 0)) or []
+            except (PyRaise, OutOfSubset, PathEnd, Infeasible):
+                raise
+            except Exception as e:  # the check could not be formulated on this path (e.g. after a refactoring): undecided, never a crash
+                raise OutOfSubset(f"element-wise iteration check could not be formulated: {type(e).__name__}: {e}")
+            for label, goal in goals:
                 if isinstance(goal, bool):
                     goal = z3.BoolVal(goal)
                 self.call_obligations.append((f"iteration:{label}", goal, list(self.facts), list(self.pc)))
@@ -925,6 +945,7 @@ class Interp:
         if self.choose(2, "loop_iter_or_exit") == 0:
             elem = self.arbitrary_element(src)
             self._loop_trace_mark = len(self.trace)
+            self._loop_elem, self._loop_src = elem, src  # for element-wise checks: no dependence on local names
             self.assign(st.target, elem, env)
             try:
                 self.exec_block(st.body, env)
@@ -1047,6 +1068,8 @@ class Interp:
 
     # ------------------------------------------------------------------ iteration
     def iterate(self, v: V, unpack=None):
+        if isinstance(v, VLib) and v.kind == "dict_keys":
+            v = v.f["dict"]
         if isinstance(v, (VList, VTuple)):
             return list(v.items)
         if isinstance(v, VDict):
